@@ -18,13 +18,14 @@ namespace Just.C10
 open Just Just.Syntax
 
 /-- **Round trip.**  For every well-formed expression `e`, every level `k` at which it may stand,
-every continuation `rest` that does not extend a level-`k` phrase (`Stop`: no operator of that level; `After`:
+every continuation `rest` that does not extend the level-`k` phrase `e` (`StopE`: no `||`, `&&` of that level, and no `/`, `+`
+unless `e` ends in a conditional, which the parser returns as it is; `After`:
 when `e` ends with an identifier, no `(` - that would be a call - and directly after `x` no string - that
 would be a shell-expanded literal) and every sufficient fuel, the level-`k` parser reads the printed tokens of `e` back
 as exactly `e` and stops at `rest`.
 (Proof: Lemmas/SyntaxRoundtrip.lean, mutual structural induction over `Expr` / `Exprs`.) -/
 theorem roundtrip (e : Expr) (hw : WF e) (k : Nat) (hk : level e ≤ k) (hk3 : k ≤ 3) (f : Nat) (rest : List Tk)
-    (hf : 4 * e.size + k ≤ f) (hstop : Stop k rest) (hafter : After e rest) :
+    (hf : 4 * e.size + k ≤ f) (hstop : StopE k e rest) (hafter : After e rest) :
     parseAt k f (printE e ++ rest) = some (e, rest) :=
   roundtrip_core e hw k hk hk3 f rest hf hstop hafter
 
@@ -36,13 +37,13 @@ theorem roundtripArgs (es : Exprs) (hw : WFs es) (f : Nat) (rest : List Tk) (hf 
 /-- **Formatting preserves the expression.**  Parsing the printed form of any expression the parser
 can produce yields that expression again and consumes every token. -/
 theorem parse_print (e : Expr) (hw : WF e) : parseExpression (4 * e.size + 3) (printE e) = some (e, []) := by
-  have := roundtrip e hw 3 (level_le3 e) (Nat.le_refl _) (4 * e.size + 3) [] (Nat.le_refl _) (stop_nil 3) (after_nil e)
+  have := roundtrip e hw 3 (level_le3 e) (Nat.le_refl _) (4 * e.size + 3) [] (Nat.le_refl _) (stopE_nil 3 e) (after_nil e)
   simpa [parseAt] using this
 
 /-- … for every larger amount of fuel as well: the bound is not a hidden restriction -/
 theorem parse_print_fuel (e : Expr) (hw : WF e) (f : Nat) (hf : 4 * e.size + 3 ≤ f) :
     parseExpression f (printE e) = some (e, []) := by
-  have := roundtrip e hw 3 (level_le3 e) (Nat.le_refl _) f [] hf (stop_nil 3) (after_nil e)
+  have := roundtrip e hw 3 (level_le3 e) (Nat.le_refl _) f [] hf (stopE_nil 3 e) (after_nil e)
   simpa [parseAt] using this
 
 /-- **Formatting is idempotent.**  Print, parse, print again: the same tokens. -/
@@ -56,7 +57,7 @@ theorem group_keeps_parentheses (e : Expr) : printE (.group e) = [.lparen] ++ pr
 
 /-- in interpolations, defaults and dependency arguments the same printer and parser are used: the
 round trip holds with any continuation that cannot extend the expression (`}}`, `)`, `,`, end of line …) -/
-theorem parse_print_in_context (e : Expr) (hw : WF e) (rest : List Tk) (hrest : Stop 3 rest) (hafter : After e rest) :
+theorem parse_print_in_context (e : Expr) (hw : WF e) (rest : List Tk) (hrest : StopE 3 e rest) (hafter : After e rest) :
     parseExpression (4 * e.size + 3) (printE e ++ rest) = some (e, rest) := by
   have := roundtrip e hw 3 (level_le3 e) (Nat.le_refl _) (4 * e.size + 3) rest (Nat.le_refl _) hrest hafter
   simpa [parseAt] using this
@@ -96,7 +97,8 @@ theorem format_of_any_source (f : Nat) (ts : List Tk) (e : Expr) (rest : List Tk
 
 /-! ### recipe header lines (name, parameters with defaults, variadic, dependencies with arguments, `&&`) -/
 
-/-- **Round trip of recipe headers.**  For every header whose defaults are values and whose dependency
+/-- **Round trip of recipe headers.**  For every header whose defaults are values (`WFValue`: what `parse_value` returns,
+a variable or function called `if` included) and whose dependency
 arguments do not begin with a token that would continue the previous argument (`WFHeader`), printing
 the header (`ColorDisplay for Recipe` up to the body) and parsing it (`parse_recipe` up to `expect_eol`)
 returns exactly the header - quiet flag, name, every parameter with its kind, `$` export and default,
@@ -201,17 +203,17 @@ example : Header.WFHeader
   constructor
   · intro p hp
     simp at hp
-    rcases hp with rfl | rfl <;> simp [Header.WFParam, WF, level]
+    rcases hp with rfl | rfl <;> simp [Header.WFParam, Header.WFValue, WF, level]
   · intro v hv
     simp at hv
     subst hv
-    simp [Header.WFParam, WF, level, okName]
+    simp [Header.WFParam, Header.WFValue, WF, level, okName]
   · intro d hd
     simp at hd
     rcases hd with rfl | rfl
     · simp [Header.WFDep, Header.WFArgs]
     · refine ⟨trivial, ?_, ?_, ?_⟩
-      · exact stop_cons 3 _ _ (by simp [blocks])
+      · exact stopE_cons 3 _ _ _ (by simp [blocksE])
       · exact after_of_none rfl _
       · simp [Header.WFArgs, WF, okName]
   · intro d hd
@@ -222,10 +224,10 @@ example : Header.WFHeader
 /-- dependency arguments may begin with a parenthesis when the previous argument does not end with a name:
 `(dep 'a' ('b') x'c' (d))` -/
 example : Header.WFArgs [.str "'a'", .group (.str "'b'"), .str "x'c'", .group (.var "d")] := by
-  refine ⟨trivial, stop_cons 3 _ _ (by simp [blocks]), after_of_none rfl _, trivial, ?_, after_of_none rfl _,
-    trivial, stop_cons 3 _ _ (by simp [blocks]), after_of_none rfl _, ?_⟩
+  refine ⟨trivial, stopE_cons 3 _ _ _ (by simp [blocksE]), after_of_none rfl _, trivial, ?_, after_of_none rfl _,
+    trivial, stopE_cons 3 _ _ _ (by simp [blocksE]), after_of_none rfl _, ?_⟩
   · have : printE (.str "x'c'") = [.ident "x", .strAdj "'c'"] := by decide
-    rw [this]; exact stop_cons 3 _ _ (by simp [blocks])
+    rw [this]; exact stopE_cons 3 _ _ _ (by simp [blocksE])
   · exact (by simp [WF, okName] : WF (.group (.var "d")))
 
 /-- non-vacuity: `if a == (b + 'c') { f(x, y) / z } else if … { … } else { / w && v || u }` is well-formed -/
